@@ -10,8 +10,8 @@ use crate::{
         TplLitTypeItem, TypedArrayKind,
     },
     subtyping::{
-        bdd::MappingAtomicType,
-        dnf::{Conjunction, bdd_to_dnf},
+        bdd::{MappingAtomicType, list_is_empty},
+        dnf::{Conjunction, bdd_to_dnf, dnf_mapping_is_empty, dnf_to_bdd},
         subtype::VoidUndefinedSubtype,
     },
 };
@@ -109,6 +109,11 @@ impl<'a, 'b> SchemerContext<'a, 'b> {
 
         // The DNF is a disjunction (OR/union) of conjunctions (AND/intersect)
         for clause in dnf.iter() {
+            // a clause that denotes nothing contributes nothing; this is decided here, on the semantic side,
+            // where recursive types are no obstacle (their materialisation cannot always be converted back)
+            if dnf_mapping_is_empty(&dnf_to_bdd(&vec![clause.clone()]), self.ctx.0)?.is_empty() {
+                continue;
+            }
             let conj = self.mapping_conjunction_to_schema(clause)?;
             acc.push(conj);
         }
@@ -218,6 +223,10 @@ impl<'a, 'b> SchemerContext<'a, 'b> {
 
         // The DNF is a disjunction (OR/union) of conjunctions (AND/intersect)
         for clause in dnf.iter() {
+            // as for mappings: empty clauses are dropped on the semantic side
+            if list_is_empty(&dnf_to_bdd(&vec![clause.clone()]), self.ctx.0)?.is_empty() {
+                continue;
+            }
             let conj = self.list_conjunction_to_schema(clause)?;
             acc.push(conj);
         }
